@@ -33,7 +33,7 @@ Case gen_C08(uint64_t seed, long run, const GenCfg &g, const char *inflight) {
 }
 
 struct C08Ctx {
-    const Case &c; const TaskPlan &plan; int mi; RunOutcome &out; PlanRun ref; uint64_t budget; Hash64 h; std::vector<EnvSpec> failing; bool ilu;
+    const Case &c; const TaskPlan &plan; int mi; RunOutcome &out; PlanRun ref; uint64_t budget; Hash64 h; std::vector<EnvSpec> failing; bool ilu; bool ref_singular = false;
     C08Ctx(const Case &cc, RunOutcome &o) : c(cc), plan(cc.tasks[0]), mi(c08_main_op(cc.tasks[0])), out(o), budget(0), ilu(false) {}
 };
 
@@ -44,7 +44,9 @@ static ExecCfg c08_cfg(uint64_t budget) {
 }
 
 // one enumerated run: outcome must be "reported shortage" or "same class and bit-identical to the reference"
-static void c08_one(C08Ctx &x, const EnvSpec &e, const char *what) {
+static void c08_one(C08Ctx &x, const EnvSpec &e0, const char *what) {
+    EnvSpec e = e0;
+    if (x.ref_singular) { e.garbage = G_ZERO; e.wsgarbage = G_ZERO; } // known finding KF-zero-pivot: singular inputs run with clean fresh memory only
     TaskPlan q = apply_env(x.plan, e);
     PlanRun pr = run_plan_single(q, c08_cfg(x.budget));
     x.h.u64(pr.evhash);
@@ -98,7 +100,7 @@ RunOutcome exec_C08(const Case &c) {
     const TaskPlan &plan = x.plan; const Op &mo = plan.ops[x.mi]; const Mat &A = plan.mats[0];
     bool cplx = (plan.dtype == 'c' || plan.dtype == 'z'); x.ilu = (mo.kind == "gsisx" || mo.kind == "ipipe");
     // ---- reference: library allocation, fault free ----
-    EnvSpec re; re.lwork = 0; re.fill = plan.tuning[5]; re.garbage = plan.garbage; re.label = "reference";
+    EnvSpec re; re.lwork = 0; re.fill = plan.tuning[5]; re.garbage = G_ZERO; re.label = "reference";
     { TaskPlan q = apply_env(plan, re); ExecCfg cf = c08_cfg(0); cf.chk_identity = true; x.ref = run_plan_single(q, cf); }
     x.h.u64(x.ref.evhash);
     const OpResult &rr = x.ref.trace[x.mi];
@@ -106,6 +108,8 @@ RunOutcome exec_C08(const Case &c) {
     out.stats["cases"] += 1; out.stats["enumerated_runs"] += 1; out.stats["sim_edges"] += (double)x.ref.steps;
     if (rr.skipped || rr.cls == XC_ABORT || rr.cls == XC_HANG || rr.cls == XC_NOSPACE) { out.hash = x.h.h; return out; }
     x.budget = 50 * rr.steps + 1000000;
+    x.ref_singular = (rr.cls == XC_SINGULAR);
+    if (x.ref_singular) out.stats["cases_singular_clean_memory_only"] += 1;
     std::ostringstream s;
     s << "{\"dtype\":\"" << plan.dtype << "\",\"matrix\":\"" << A.family << " " << A.m << "x" << A.n << " nnz " << A.nnz() << "\",\"op\":\"" << op_brief(mo) << "\",\"tuning\":\"" << tuning_brief(plan.tuning) << "\"";
     if (c.note.find("only:") != std::string::npos) {
